@@ -382,6 +382,33 @@ func genReceiverCase(r *vh.Rand, id string, big bool, st map[string]int) *scenar
 	return sc
 }
 
+// a slow but steady stream: k ticks after every chunk with k < timeout, the whole transfer
+// lasting longer than timeout + gc interval; nothing else happens. It must finalise.
+func genSteadyCase(r *vh.Rand, id string) *rcase {
+	c := &rcase{id: id, kind: "R", did: 1 + uint64(r.Intn(3)), slots: 128, steady: true}
+	c.to = 2 + uint64(r.Intn(6))
+	c.gc = 1 + uint64(r.Intn(3))
+	k := 1 + uint64(r.Intn(int(c.to-1))) // 1 .. to-1
+	need := int((c.to+c.gc)/k) + 3         // chunks so that the transfer outlasts timeout + gc
+	c.cs = 1024 + uint64(r.Intn(512))
+	sc := &scenario{c: c}
+	var exts []int
+	if r.Bool() {
+		exts = []int{1 + r.Intn(2*int(c.cs))}
+	}
+	payload := need*int(c.cs) + r.Intn(int(c.cs))
+	if !sc.addStream(r, uint64(1+r.Intn(2)), uint64(1+r.Intn(2)), uint64(5+r.Intn(3)), 100+uint64(r.Intn(3)), 1+uint64(r.Intn(4)), payload, exts) {
+		panic("steady case: sender failed")
+	}
+	// a few ticks first so that the stream does not start at tick 0
+	c.ops = append(c.ops, op{kind: opTick, n: uint64(r.Intn(2 * int(c.to+c.gc)))})
+	for _, o := range sc.streams[0].chunks {
+		c.ops = append(c.ops, o, op{kind: opTick, n: k})
+	}
+	c.ops = append(c.ops, op{kind: opDrain})
+	return c
+}
+
 // bad file names: Filepath values whose base is not a plain child name
 func genNameCase(r *vh.Rand, id string) *rcase {
 	c := &rcase{id: id, kind: "R", did: 1, gc: 2, to: 4, slots: 128, cs: 2048}
@@ -435,6 +462,9 @@ func gen(a vh.Args) {
 	}
 	for i := 0; i < n/8+1; i++ {
 		w.Printf("%s\n", genNameCase(r, fmt.Sprintf("n%d", i)).String())
+	}
+	for i := 0; i < n/10+4; i++ {
+		w.Printf("%s\n", genSteadyCase(r, fmt.Sprintf("y%d", i)).String())
 	}
 	// sender cases whose message disagrees with the files (short read / empty file)
 	for i := 0; i < n/10+1; i++ {
